@@ -100,7 +100,7 @@ def run(ctx):
         for mode in MODES[prop]:
             n = (3000 if quick else 60000) if mode != "c07" else (4000 if quick else 80000)
             p = ctx.vh(["nodeheap", "gen", mode, str(n)])
-            for line in p.stdout.decode().splitlines():
+            for line in p.stdout.decode().split("\n"):
                 if line.strip():
                     fh.write(line + "\n")
                     ncases[0] += 1
